@@ -207,14 +207,14 @@ theorem foldF_deref (reg : Bool) : ∀ (sn : List String) (T : GoType), goodT sn
   · intro sn T _ _ hs v m r _ h
     rw [hs]
     exact ⟨m, h⟩
-  · intro sn T e hg hu _ hs ih v m r hw h
+  · intro sn T e hg hu hge hs ih v m r hw h
     rw [hs]
     cases m with
     | zero => simp [foldF] at h
     | succ m =>
       rw [foldF_under m reg hg, hu] at h
       rcases wt_ptr_inv hu hw with rfl | ⟨y, rfl, hy⟩
-      · rw [foldF_ptr_nil] at h
+      · rw [foldF_ptr_nil _ _ _ (customOf_good reg hge)] at h
         cases h
         rfl
       · rw [foldF_ptr] at h
